@@ -1,6 +1,6 @@
 (* C01 correspondence: observations of the real limit.Reader/Writer, rate.Limiter and of whole tunnels
    (in-process frps + real frpc) against the model, and the property monitors on observed traces. *)
-From FRP Require Export Corr.Common Model.Limit Model.Bucket Model.Stack Model.Bridge.
+From FRP Require Export Corr.Common Model.Limit Model.Bucket Model.Stack Model.Bridge gen.GenStacks.
 Open Scope string_scope.
 Open Scope list_scope.
 Open Scope Z_scope.
@@ -20,6 +20,14 @@ Inductive case :=
    sniffed head, everything read from the routed connection, age of the connection when it was used,
    the muxer's timeout, did the write towards the user succeed, did the user receive it unchanged *)
 | CMux (kind : Z) (shared : bool) (sent : bytes) (headlen : Z) (got : bytes) (age_ms timeout_ms : Z) (write_ok down_eq : bool)
+(* the real tcpmux muxer (passthrough off), a backend that speaks first (writes [down] to the routed connection
+   the moment it gets it) and a muxer goroutine whose write of the CONNECT answer is held back for delay_ms:
+   everything the user received *)
+| CMuxFirst (delay_ms : Z) (down : bytes) (user_got : bytes)
+(* tcpMux on, one side writes [sent] bytes and closes at once, the other side drains through a bandwidth limit of
+   [rate] B/s (dir 0: upload, client-side limit; 1: download, server-side limit): bytes the reader got before its
+   end of stream, were they identical, was it a clean EOF *)
+| CDrain (dir rate sent got : Z) (identical eof : bool)
 (* one user connection through a real tunnel *)
 | CTunnel (cfg : string)
     (proxies : list (string * Z * Z))      (* proxy name, public endpoint id, backend id *)
@@ -103,6 +111,14 @@ Definition check_case (c : case) : Z :=
       let r := sc_reads st [(blen sent, blen sent); (blen sent, blen sent)] in
       if negb (bytes_eqb (List.concat (fst r)) got) then 30
       else if negb write_ok then 31 else if negb down_eq then 32 else 0
+  | CMuxFirst _ down user_got =>
+      (* whatever the schedule, the user's stream is the answer followed by the backend's bytes *)
+      if bytes_eqb user_got (resp_bytes connect_ok_response (mux_prog_of muxer_handle_events) ++ down) then 0 else 33
+  | CDrain _ rate sent got identical eof =>
+      let inflight := Z.min sent 6291456 in
+      if drain_delivered yamux_default_close_timeout_ms rate inflight =? inflight then
+        (if (got =? sent) && identical && eof then 0 else 40)
+      else 0   (* the model itself predicts a truncation for this rate (below window / StreamCloseTimeout) *)
   | CTunnel _ proxies endpoint reached ppver usrc udst hdr us ur ds dr ueq deq uh dh mode cte close_ms bound_ms rate burst total elapsed_ms =>
       match predicted_backend proxies endpoint with
       | None => 20
@@ -127,6 +143,8 @@ Definition has_header (c : case) : bool :=
   match c with CTunnel _ _ _ _ _ _ _ (_ :: _) _ _ _ _ _ _ _ _ _ _ _ _ _ _ _ _ => true | _ => false end.
 Definition is_aged_mux (c : case) : bool :=
   match c with CMux _ _ _ _ _ age timeout _ _ => timeout <? age | _ => false end.
+Definition is_first (c : case) : bool := match c with CMuxFirst _ _ _ => true | _ => false end.
+Definition is_drain (c : case) : bool := match c with CDrain _ _ _ _ _ _ => true | _ => false end.
 Definition is_split (c : case) : bool :=
   match c with CLimW _ _ _ (_ :: _ :: _) => true | _ => false end.
 Definition is_waiting (c : case) : bool :=
